@@ -32,7 +32,9 @@ def seed_table():
         how = []
         if any("TIE BROKEN [proof]" in l or "TIE BROKEN [translator]" in l or "TIE BROKEN [audit]" in l for l in lines): how.append("proof/translator")
         if any("TIE BROKEN [correspondence]" in l for l in lines): how.append("correspondence")
-        if c.get("detected_with_failing_input"): how.append("failing input (property mode)")
+        first_input = any(l.startswith("VIOLATION") and "no-failing-input-found" not in l for l in lines)
+        if c.get("detected_with_failing_input"):
+            how.append("failing input (property mode)" + ("" if first_input or not c.get("rechecks") else " — after the check was strengthened, first run: " + ("tie only" if lines else "missed")))
         title = (m.get("title") or "")[:110].replace("|", "/")
         needs = (m.get("needs_to_manifest") or "")[:160].replace("|", "/")
         rows.append(f"| `{name}` | {m.get('property', c.get('property',''))} | {title} — needs: {needs} | {'yes' if c.get('valid_seed') else 'NO'} | "
